@@ -28,12 +28,14 @@ package types
 //@ axiom cpc_key_prefixes: len(KeyPrefixParams) == 1 && cap(KeyPrefixParams) == 1 && KeyPrefixParams[0] == 1 && len(KeyPrefixCustomPrecompiledContractMeta) == 1 && cap(KeyPrefixCustomPrecompiledContractMeta) == 1 && KeyPrefixCustomPrecompiledContractMeta[0] == 2 && len(KeyPrefixErc20CpcDenomToAddress) == 1 && cap(KeyPrefixErc20CpcDenomToAddress) == 1 && KeyPrefixErc20CpcDenomToAddress[0] == 3 && len(KeyPrefixErc20CpcAllowance) == 1 && cap(KeyPrefixErc20CpcAllowance) == 1 && KeyPrefixErc20CpcAllowance[0] == 4
 
 //@ func Erc20CustomPrecompiledContractAllowanceKey(owner, spender common.Address) []byte
+//@   deterministic[C01.no_node_local_source]
 //@   modifies nothing
 //@   ensures[C10.allow_key_layout] bytes(result) == allowKeyB(owner, spender) && len(result) == 41 && fresh(base(result))
 //@   ensures[C10.allow_key_table,C17.allow_key_table] cpcKeyTable(bytes(result)) == 4
 //@   panics never
 
 //@ func CustomPrecompiledContractMetaKey(contractAddr common.Address) []byte
+//@   deterministic[C01.no_node_local_source]
 //@   modifies nothing
 //@   ensures[C17.meta_key_layout] bytes(result) == metaKeyB(contractAddr) && len(result) == 21
 //@   ensures[C17.meta_key_table] cpcKeyTable(bytes(result)) == 2
@@ -41,27 +43,32 @@ package types
 
 // params.go — a valid Params record has protocol version 1 (the only one defined)
 //@ func (m Params) Validate() (err error)
+//@   deterministic[C01.no_node_local_source]
 //@   modifies nothing
 //@   ensures[C17.params_validate_version] err == nil ==> (1 <= m.ProtocolVersion && m.ProtocolVersion <= 1)
 
 // precompiles.go — a valid registry record: a 20-byte non-zero address, a known type, a name and typed metadata
 //@ func (m CustomPrecompiledContractMeta) Validate(cpcV ProtocolCpc) (err error)
+//@   deterministic[C01.no_node_local_source]
 //@   modifies nothing
 //@   ensures[C17.meta_validate] err == nil ==> (len(m.Address) == 20 && bytesAddr(bytes(m.Address)) != zero(type(common.Address)) && 1 <= m.CustomPrecompiledType && m.CustomPrecompiledType <= 3 && m.Name != "" && m.TypedMeta != "" && cpcV == 1)
 //@   ensures[C17.meta_validate_typed] (err == nil && m.CustomPrecompiledType == 1) ==> (jsonErc20Ok(strBytes(m.TypedMeta)) && jsonErc20MinDenom(strBytes(m.TypedMeta)) != "" && jsonErc20Symbol(strBytes(m.TypedMeta)) != "" && jsonErc20Decimals(strBytes(m.TypedMeta)) <= 18)
 
 //@ func (m Erc20CustomPrecompiledContractMeta) Validate(cpcV ProtocolCpc) (err error)
+//@   deterministic[C01.no_node_local_source]
 //@   modifies nothing
 //@   ensures[C17.erc20_meta_validate] (err == nil) == (m.Symbol != "" && m.Decimals <= 18 && m.MinDenom != "" && m.Symbol != m.MinDenom)
 //@   panics never
 
 //@ func Erc20CustomPrecompiledContractMinDenomToAddressKey(minDenom string) []byte
+//@   deterministic[C01.no_node_local_source]
 //@   modifies nothing
 //@   ensures[C17.denom_key_layout] bytes(result) == denomKeyB(minDenom) && len(result) == 1 + len(minDenom)
 //@   ensures[C17.denom_key_table] cpcKeyTable(bytes(result)) == 3
 //@   panics never
 
 //@ func (m StakingCustomPrecompiledContractMeta) Validate(cpcV ProtocolCpc) (err error)
+//@   deterministic[C01.no_node_local_source]
 //@   modifies nothing
 //@   ensures[C17.staking_meta_validate] (err == nil) == (m.Symbol != "" && m.Decimals <= 18)
 //@   panics never
